@@ -457,6 +457,13 @@ func (b *sourcePathsBuilder) remapMethod(
 	if !b.closure.hasType(method, b.options) {
 		return nil, true, nil
 	}
+	for _, typeName := range []string{method.GetInputType(), method.GetOutputType()} {
+		typeInfo := b.imageIndex.ByName[protoreflect.FullName(strings.TrimPrefix(typeName, "."))]
+		if !b.closure.hasType(typeInfo.element, b.options) {
+			// The input or output type is excluded, so is the method.
+			return nil, true, nil
+		}
+	}
 	return method, false, nil
 }
 
